@@ -178,7 +178,12 @@ type pipeWorld struct {
 	stream [][]RawType // full ground-truth stream per channel (generated up front)
 	sent   int         // samples delivered per channel so far
 	edges  map[int]bool
-	fed    int         // blocks fed
+	fed    int // blocks fed
+	// stampJitter, when set, gives block number b a time stamp that deviates from the nominal one
+	// (block stamps are the source's business: dastard must derive trigger times from them)
+	stampJitter func(b int) time.Duration
+	blockFirst  []int       // first sample index of each block fed
+	blockStamp  []time.Time // time stamp given to each block fed
 }
 
 // newSourceControl builds the server object the way RunRPCServer does (minus sockets).
@@ -244,6 +249,12 @@ func (w *pipeWorld) feedBlock(n int, mod func(b *dataBlock)) {
 	}
 	b := new(dataBlock)
 	b.segments = make([]DataSegment, w.nchan)
+	stamp := w.T0.Add(time.Duration(w.sent) * w.period)
+	if w.stampJitter != nil {
+		stamp = stamp.Add(w.stampJitter(w.fed))
+	}
+	w.blockFirst = append(w.blockFirst, w.sent)
+	w.blockStamp = append(w.blockStamp, stamp)
 	for c := 0; c < w.nchan; c++ {
 		data := make([]RawType, n)
 		copy(data, w.stream[c][w.sent:w.sent+n])
@@ -252,7 +263,7 @@ func (w *pipeWorld) feedBlock(n int, mod func(b *dataBlock)) {
 			framesPerSample: 1,
 			framePeriod:     w.period,
 			firstFrameIndex: w.F0 + FrameIndex(w.sent),
-			firstTime:       w.T0.Add(time.Duration(w.sent) * w.period),
+			firstTime:       stamp,
 			signed:          w.signed[c],
 		}
 	}
